@@ -189,7 +189,7 @@ Proof.
   split.
   - pose proof (normalized_pos (ratio g) (MilliCPUToQuota (amount (limC c))) ltac:(lia)).
     unfold unlimited. lia.
-  - apply normalized_mono, quota_mono; assumption.
+  - apply normalized_mono; [lia|apply quota_mono; assumption].
 Qed.
 
 Lemma want_mem_no_tighter cs c :
